@@ -43,6 +43,20 @@ Proof.
   unfold sibling_ids. rewrite (table_find _ _ _ _ Hp). destruct sp; reflexivity.
 Qed.
 
+Lemma NoDup_app_l {A} (l1 l2 : list A) : NoDup (l1 ++ l2) -> NoDup l1.
+Proof.
+  induction l1 as [|a l1 IH]; cbn [app]; intros ND; [constructor|].
+  inversion ND as [|? ? Hn ND']; subst. constructor.
+  - intros Hin. apply Hn. apply in_or_app. left. exact Hin.
+  - apply IH. exact ND'.
+Qed.
+
+Lemma NoDup_app_r {A} (l1 l2 : list A) : NoDup (l1 ++ l2) -> NoDup l2.
+Proof.
+  induction l1 as [|a l1 IH]; cbn [app]; intros ND; [exact ND|].
+  inversion ND; subst. apply IH. assumption.
+Qed.
+
 Section Children.
   Variables (d : document) (t : tree) (p : N) (pp : option N) (sp : tree).
   Hypothesis HA : Arena d t.
@@ -95,7 +109,7 @@ Section Children.
   Lemma seg_NoDup l : seg l -> NoDup l.
   Proof.
     intros (pre & post & E). pose proof L_NoDup as ND. rewrite E in ND.
-    apply NoDup_app_remove_l in ND. apply NoDup_app_remove_r in ND. exact ND.
+    apply NoDup_app_r in ND. apply NoDup_app_l in ND. exact ND.
   Qed.
 
   Lemma children_next_spec l :
@@ -209,3 +223,105 @@ Proof.
   apply (run_children_spec d t id par s HA Hin); [apply seg_L | exact HF].
 Qed.
 Print Assumptions children_deque.
+
+(* ------------------------------------------------------------------ *)
+(* slice iterators *)
+Fixpoint run_slice (ops : list dop) (it : slice_it) : list (dout N) :=
+  match ops with
+  | [] => []
+  | DNext :: r => let '(o, it') := sit_next it in OItem o :: run_slice r it'
+  | DNextBack :: r => let '(o, it') := sit_next_back it in OItem o :: run_slice r it'
+  | DNth k :: r => let '(o, it') := sit_nth (N.of_nat k) it in OItem o :: run_slice r it'
+  | DLen :: r => OLen (N.to_nat (sit_len it)) :: run_slice r it
+  end.
+
+Lemma N_range_snoc a m : N_range a (S m) = N_range a m ++ [a + N.of_nat m].
+Proof.
+  replace (S m) with (m + 1)%nat by lia. rewrite N_range_app. reflexivity.
+Qed.
+
+Lemma N_range_skipn k : forall a n,
+  skipn k (N_range a n) = N_range (a + N.of_nat k) (n - k).
+Proof.
+  induction k as [|k IH]; intros a n.
+  - cbn [skipn]. replace (n - 0)%nat with n by lia. f_equal. lia.
+  - destruct n as [|n]; [reflexivity|].
+    cbn [N_range skipn]. rewrite IH. replace (S n - S k)%nat with (n - k)%nat by lia.
+    f_equal. lia.
+Qed.
+
+Lemma sit_next_spec it : it_lo it <= it_hi it ->
+  exists it', sit_next it = (hd_error (sit_list it), it') /\
+              sit_list it' = tl (sit_list it) /\ it_lo it' <= it_hi it'.
+Proof.
+  destruct it as [lo hi]. cbn [it_lo it_hi]. intros Hle.
+  unfold sit_next, sit_list, sit_len. cbn [it_lo it_hi].
+  destruct (lo <? hi) eqn:E.
+  - apply N.ltb_lt in E. eexists. split; [|split].
+    + destruct (N.to_nat (hi - lo)) as [|m] eqn:Em; [lia|]. reflexivity.
+    + cbn [it_lo it_hi]. destruct (N.to_nat (hi - lo)) as [|m] eqn:Em; [lia|].
+      cbn [N_range tl]. f_equal. lia.
+    + cbn [it_lo it_hi]. lia.
+  - apply N.ltb_ge in E. exists {| it_lo := lo; it_hi := hi |}.
+    replace (N.to_nat (hi - lo)) with 0%nat by lia. cbn [it_lo it_hi N_range hd_error tl].
+    split; [reflexivity|]. split; [|exact Hle].
+    replace (N.to_nat (hi - lo)) with 0%nat by lia. reflexivity.
+Qed.
+
+Lemma sit_next_back_spec it : it_lo it <= it_hi it ->
+  exists it', sit_next_back it = (hd_error (rev (sit_list it)), it') /\
+              sit_list it' = rev (tl (rev (sit_list it))) /\ it_lo it' <= it_hi it'.
+Proof.
+  destruct it as [lo hi]. cbn [it_lo it_hi]. intros Hle.
+  unfold sit_next_back, sit_list, sit_len. cbn [it_lo it_hi].
+  destruct (lo <? hi) eqn:E.
+  - apply N.ltb_lt in E. eexists. split; [|split].
+    + destruct (N.to_nat (hi - lo)) as [|m] eqn:Em; [lia|].
+      rewrite N_range_snoc, rev_app_distr. cbn [rev app hd_error].
+      replace (lo + N.of_nat m) with (hi - 1) by lia. reflexivity.
+    + cbn [it_lo it_hi]. destruct (N.to_nat (hi - lo)) as [|m] eqn:Em; [lia|].
+      rewrite N_range_snoc, rev_app_distr. cbn [rev app tl]. rewrite rev_involutive.
+      f_equal. lia.
+    + cbn [it_lo it_hi]. lia.
+  - apply N.ltb_ge in E. exists {| it_lo := lo; it_hi := hi |}.
+    replace (N.to_nat (hi - lo)) with 0%nat by lia. cbn [it_lo it_hi N_range rev hd_error tl].
+    split; [reflexivity|]. split; [|exact Hle].
+    replace (N.to_nat (hi - lo)) with 0%nat by lia. reflexivity.
+Qed.
+
+Lemma sit_nth_spec k it : it_lo it <= it_hi it ->
+  exists it', sit_nth (N.of_nat k) it = (hd_error (skipn k (sit_list it)), it') /\
+              sit_list it' = tl (skipn k (sit_list it)) /\ it_lo it' <= it_hi it'.
+Proof.
+  destruct it as [lo hi]. cbn [it_lo it_hi]. intros Hle.
+  unfold sit_nth, sit_list, sit_len. cbn [it_lo it_hi]. rewrite N_range_skipn.
+  destruct (N.of_nat k <? hi - lo) eqn:E.
+  - apply N.ltb_lt in E. eexists. split; [|split].
+    + destruct (N.to_nat (hi - lo) - k)%nat as [|m] eqn:Em; [lia|]. reflexivity.
+    + cbn [it_lo it_hi]. destruct (N.to_nat (hi - lo) - k)%nat as [|m] eqn:Em; [lia|].
+      cbn [N_range tl]. f_equal. lia.
+    + cbn [it_lo it_hi]. lia.
+  - apply N.ltb_ge in E. eexists. split; [|split].
+    + replace (N.to_nat (hi - lo) - k)%nat with 0%nat by lia. reflexivity.
+    + cbn [it_lo it_hi]. replace (N.to_nat (hi - lo) - k)%nat with 0%nat by lia.
+      replace (N.to_nat (hi - hi)) with 0%nat by lia. reflexivity.
+    + cbn [it_lo it_hi]. lia.
+Qed.
+
+Lemma sit_len_spec it : N.to_nat (sit_len it) = length (sit_list it).
+Proof. unfold sit_list. rewrite N_range_length. reflexivity. Qed.
+
+Theorem slice_deque : forall ops it, it_lo it <= it_hi it ->
+  run_slice ops it = deque_run ops (sit_list it).
+Proof.
+  induction ops as [|o r IH]; intros it Hle; [reflexivity|].
+  destruct o as [| |k|].
+  - destruct (sit_next_spec it Hle) as (it' & E1 & E2 & E3).
+    cbn [run_slice]. rewrite E1, deque_next, <- E2, IH by exact E3. reflexivity.
+  - destruct (sit_next_back_spec it Hle) as (it' & E1 & E2 & E3).
+    cbn [run_slice]. rewrite E1, deque_next_back, <- E2, IH by exact E3. reflexivity.
+  - destruct (sit_nth_spec k it Hle) as (it' & E1 & E2 & E3).
+    cbn [run_slice]. rewrite E1, deque_nth, <- E2, IH by exact E3. reflexivity.
+  - cbn [run_slice deque_run]. rewrite sit_len_spec, IH by exact Hle. reflexivity.
+Qed.
+Print Assumptions slice_deque.
